@@ -270,7 +270,7 @@ def direct_cases(tier: str, group: str, seam: str) -> List[tuple]:
             for status, rh in FLOW_HEADS:
                 for ch in ("three", "mixed", "empty_first", "none"):
                     spec = (kind, status, rh, "one" if kind in KIND_IGNORES_CHUNKS else ch)
-                    for mode in FLOW_MODES:
+                    for mode in FLOW_MODES + (CANCEL_MODES if seam == "mw:trio" else ()):
                         cases.append((seam, rq, spec, 64, "1", mode))
     elif group == "loops":
         reqs = [http_req("GET", b"/"), http_req("POST", b"/app/x", b"q=1", "/app", "repeated", body_n=3)]
@@ -357,6 +357,10 @@ BATCH = 250
 FLOW_KINDS = ("list", "gen_eager", "gen_lazy", "iter_close", "iter_close_lazy", "iterable_close", "excinfo_first_iter",
               "excinfo_first_gen", "excinfo_lazy_gen", "raise_mid_gen", "raise_mid_iter_close", "raise_after_empties_gen")
 FLOW_HEADS = (("200 OK", "ct"), ("404 Not Found", "cookies"))
+# gc<j> (trio middleware seam): the REQUEST IS CANCELLED while the application thread is parked in send number j (what a
+# graceful_timeout expiring mid-response does): trio.Cancelled - a BaseException - is raised inside the thread; judged
+# for close() only (exactly once, last): whatever ends the iteration, PEP 3333 wants the iterable closed
+CANCEL_MODES = ("gc0", "gc1", "gc2")
 FLOW_MODES = ("g", "gf0", "gf1", "gf2", "gf3")  # every send gated; gf<j>: send number j (0 = the first) raises
 FLOW_SEAMS = DIRECT_SEAMS + ("tg:vloop", "mw:vloop")
 # e2e flow group: what the peer does while the response is produced (it is not reading when the request arrives)
@@ -716,7 +720,8 @@ def _config(out: Out) -> Any:
 GATE_YIELDS = 3  # real loops: a gated send gives the loop back this many times before it completes
 
 
-def _gated_send(out: Out, flow: "Flow", fail_at: Optional[int], gate: Callable, finished: Callable) -> Callable:
+def _gated_send(out: Out, flow: "Flow", fail_at: Optional[int], gate: Callable, finished: Callable,
+                cancel_at: Optional[int] = None, cancel: Optional[Callable] = None) -> Callable:
     """The ASGI send of the flow groups: a slow consumer.  A message is taken over when the send begins (sends that
     begin in order are processed in order) but the call only returns after `gate()`; send number `fail_at` is not
     taken over and raises SendFailed after its gate."""
@@ -731,12 +736,17 @@ def _gated_send(out: Out, flow: "Flow", fail_at: Optional[int], gate: Callable, 
         fail = idx == fail_at
         if not fail:
             out.sent.append(_copy_msg(m))
-        err: Optional[Exception] = None
+        err: Optional[BaseException] = None
         try:
+            if cancel is not None and idx == cancel_at:
+                cancel()  # `gc<j>`: the request is cancelled while the application thread is parked in send number j
             await gate()
             if fail:
                 err = SendFailed(f"send #{idx} {m.get('type')}")
                 raise err
+        except BaseException as e:  # (trio.Cancelled is a BaseException)
+            err = err or e
+            raise
         finally:
             flow.done(m, err)
 
@@ -795,7 +805,7 @@ def run_direct_vloop(how: str, scope: dict, messages: List[dict], app: Callable,
 
 
 def run_direct(seam: str, scope: dict, messages: List[dict], app: Callable, L: int, flow: Optional["Flow"] = None,
-               fail_at: Optional[int] = None) -> Out:
+               fail_at: Optional[int] = None, cancel_at: Optional[int] = None) -> Out:
     from hypercorn.app_wrappers import WSGIWrapper
 
     how, engine = seam.split(":")
@@ -877,8 +887,9 @@ def run_direct(seam: str, scope: dict, messages: List[dict], app: Callable, L: i
                 for _ in range(GATE_YIELDS):
                     await trio.sleep(0)
 
+            req_scope = trio.CancelScope()  # `gc<j>` (mw:trio only): cancelled from inside send number j
             if flow is not None:
-                send = _gated_send(out, flow, fail_at, gate, done.set)  # type: ignore[assignment]
+                send = _gated_send(out, flow, fail_at, gate, done.set, cancel_at, req_scope.cancel)  # type: ignore[assignment]
 
             if how == "tg":
                 async with TTaskGroup() as tg:
@@ -896,7 +907,8 @@ def run_direct(seam: str, scope: dict, messages: List[dict], app: Callable, L: i
                     tx.send_nowait(m)
                 with trio.move_on_after(WATCHDOG_S) as cs:
                     try:
-                        await TrioWSGIMiddleware(app, L)(scope, rx.receive, send)
+                        with req_scope:
+                            await TrioWSGIMiddleware(app, L)(scope, rx.receive, send)
                     except Exception as e:
                         out.raised = type(e).__name__
                 if cs.cancelled_caught:
@@ -1261,7 +1273,10 @@ def judge(case: tuple, rec: Rec, out: Out) -> Tuple[List[dict], Any, bool]:
     # ---- response, close()
     if rec.invocations == 1 and not over:
         exp = ref.expected_response(kind, spec[1], RHDRSETS[spec[2]], ALL_CHUNKSETS[spec[3]])
-        if rec.flow is not None:
+        cancelled_mode = len(case) > 5 and isinstance(case[5], str) and case[5].startswith("gc")
+        if cancelled_mode:
+            pass
+        elif rec.flow is not None:
             # the thread bridge: what the application thread saw of the sends each time it ran
             seen = set()
             for clause, key, detail in ref.check_flow(exp.produced, rec.marks):
@@ -1275,12 +1290,13 @@ def judge(case: tuple, rec: Rec, out: Out) -> Tuple[List[dict], Any, bool]:
             # a truncated response (connection closed before the declared end) is how a failure shows on the wire
             view = view._replace(errors=[e for e in view.errors if not e.startswith("client-parser:")])
         extra_ok = (lambda n: n in E2E_EXTRA_HEADERS) if sclass == "e2e" else None
-        for clause, key, detail in ref.check_response(exp, view, extra_ok):
+        for clause, key, detail in ([] if cancelled_mode else ref.check_response(exp, view, extra_ok)):
             flag(clause, f"{sclass}:{kind}:{key}",
                  f"{detail} logged={out.logged} raised={out.raised} events={rec.events}")
         if exp.closeable:
             if rec.close_count != 1:
-                flag("close-count", f"{sclass}:{kind}:{rec.close_count}-want-1", f"events={rec.events} logged={out.logged}")
+                flag("close-count", f"{sclass}:{kind}:{rec.close_count}-want-1" + (":cancelled" if cancelled_mode else ""),
+                     f"events={rec.events} logged={out.logged}")
             elif rec.events[-1] != "close" or "next-after-close" in rec.events:
                 flag("close-order", f"{sclass}:{kind}:close-not-last", f"events={rec.events}")
         elif rec.close_count:
@@ -1326,7 +1342,8 @@ def execute(params: Any, prefix: List[int]) -> ExecResult:
         scope = ws_scope(req) if rq[0] == "websocket" else ref.asgi_scope(req, rq[10])
         msgs = [{"type": "websocket.connect"}] if rq[0] == "websocket" else request_messages(req.body, split)
         fail_at = int(mode[2:]) if mode is not None and mode.startswith("gf") else None
-        out = run_direct(seam, scope, msgs, app, L, rec.flow, fail_at)
+        cancel_at = int(mode[2:]) if mode is not None and mode.startswith("gc") else None
+        out = run_direct(seam, scope, msgs, app, L, rec.flow, fail_at, cancel_at)
     viol, obs, nontrivial = judge(case, rec, out)
     sample = {"case": repr(case)[:300], "invocations": rec.invocations, "events": rec.events[:12],
               "environ": {k: repr(v)[:60] for k, v in sorted(rec.snap.items())} if isinstance(rec.snap, dict) else None,
